@@ -345,3 +345,84 @@ def check_spki_tables(ctx, rule, standard):
         ctx.inst(rule, "importer accepts the standard parameters for %s" % kt, standard[kt] in rtable[kt],
                  "accepted: %s; standard: %s (reader table %s)" % (sorted(rtable[kt]), standard[kt], {k: sorted(v) for k, v in rtable.items()}), rf["at"])
     return wtable, rtable
+
+
+def check_declared_passthrough(ctx, rule):
+    """What the caller declares about a key is what the key carries: in every non-private constructor function of PublicKey
+    that takes a SignatureScheme (or a key-id hash-algorithm list), the value stored in the key - or handed on to another
+    constructor - is that parameter itself, whatever the key material turns out to be (a key imported under one scheme must
+    not verify, or be identified, as a key of another)."""
+    from ..cg import vis_kind
+    fx = ctx.fx
+    KINDS = (("scheme", lambda ty: ty.endswith("crypto::SignatureScheme")),
+             ("keyid_hash_algorithms", lambda ty: "Option<std::vec::Vec<std::string::String>>" in ty.replace(" ", "")))
+    def returns_pk(f):
+        ty = f["locals"][0]["ty"]
+        return ty.replace("std::result::Result<", "").startswith(PK) and not ty.replace("std::result::Result<", "").startswith(PK + "::")
+    n = 0
+    for f in fx.doc["fns"]:
+        if f["kind"] not in ("Fn", "AssocFn") or f.get("impl_trait") or f.get("exp") or vis_kind(f) == "private" or not returns_pk(f):
+            continue
+        argc = f["arg_count"]
+        ptys = [f["locals"][i]["ty"] for i in range(1, argc + 1)]
+        mine = {name: [i + 1 for i, ty in enumerate(ptys) if pred(ty)] for (name, pred) in KINDS}
+        if not any(mine.values()):
+            continue
+        b = ctx.region(None, policy="private", key=f["key"], ps=True)
+        sinks = []
+        for i in sorted(b.reach):
+            for st in b.blocks[i]["stmts"]:
+                if st["k"] == "assign" and st["rv"]["k"] == "agg" and st["rv"].get("agg") == "adt" and st["rv"].get("adt") == PK:
+                    for (name, _p) in KINDS:
+                        if name in st["rv"]["fields"]:
+                            sinks.append((name, st["rv"]["ops"][st["rv"]["fields"].index(name)], st.get("at") or b.at(i), "stored in the key"))
+        for (i, t) in b.calls():
+            cf = fx.fns.get(t.get("resolved_key") or t.get("callee_key"))
+            if cf is None or cf["kind"] not in ("Fn", "AssocFn") or cf.get("impl_trait") or not returns_pk(cf):
+                continue
+            for ai, ty in enumerate(t.get("arg_tys") or []):
+                for (name, pred) in KINDS:
+                    if pred(ty) and ai < len(t["args"]):
+                        sinks.append((name, t["args"][ai], t["at"], "handed to " + callee_name(t).split("::")[-1]))
+        for (name, op, at, how) in sinks:
+            if not mine[name]:
+                continue
+            lv = b.trace(op)
+            ok = bool(lv) and all(l.kind == "param" and l.data in mine[name] and not l.path and
+                                  all(v in ("Clone::clone", "Option::cloned", "ToOwned::to_owned") for v in l.via) for l in lv)
+            n += 1
+            ctx.inst(rule, "%s: the declared %s is the one %s" % (f["path"].split("::")[-1], name, how), ok,
+                     "%s <- {%s}" % (name, ", ".join(leaf_s(b, l) for l in lv)), at)
+    if n == 0:
+        ctx.bad(rule, "declared scheme kept", "no PublicKey constructor taking a SignatureScheme found (failing closed)")
+
+
+def check_string_newtypes(ctx, RULE, closure=None):
+    """Newtypes with a hand-written Deserialize: what is stored is the decoded value, untouched.  Always the string newtypes
+    (VirtualTargetPath, KeyId); with `closure` (the ADTs of the wire closure) every single-field struct in it, whatever the
+    field's type - a derived Serialize writes the field as it is, so a decoder that re-tokenises, trims or normalises what
+    it read breaks the round trip."""
+    fx = ctx.fx
+    n_nt = 0
+    for im in fx.impls:
+        if norm(im.get("trait")) != "serde::Deserialize":
+            continue
+        adt = fx.adts.get(im.get("self_adt") or "")
+        if not adt or len(adt["variants"]) != 1 or len(adt["variants"][0]["fields"]) != 1:
+            continue
+        is_string = [fl["ty"] for fl in adt["variants"][0]["fields"]] == ["std::string::String"]
+        if not is_string and not (closure is not None and im.get("self_adt") in closure):
+            continue
+        for m in im["methods"]:
+            f = fx.fns.get(m["key"])
+            if not f or f.get("exp") or m["name"] != "deserialize":
+                continue
+            n_nt += is_string
+            rb = ctx.region(None, policy="all-local", key=f["key"])
+            fld0 = ("f", adt["variants"][0]["fields"][0]["name"])
+            lv = rb.trace({"l": 0, "p": []}, (OK, F0, fld0))
+            okn = bool(lv) and all(l.kind == "call" and (callee_name(l.data[1]) or "").endswith("Deserialize::deserialize") and l.path == (OK, F0) for l in lv)
+            ctx.inst(RULE, "%s stores the decoded %s unchanged" % (im["self_ty"].split("::")[-1], "string" if is_string else "value"), okn,
+                     "stored value <- {%s}" % ", ".join(leaf_s(rb, l) for l in lv), f["at"])
+    if n_nt == 0:
+        ctx.bad(RULE, "string newtypes", "no hand-written Deserialize impl of a string newtype found (VirtualTargetPath / KeyId expected)")
